@@ -1,6 +1,6 @@
 (** C05 -- Calls bind by position, return the executed return value, and unwind cleanly. *)
 From Pakhi Require Import Base Float64 Syntax Tables Lexer Interp.
-From Pakhi.Proofs Require Import CallValue Assoc Scope Control WF WFOps FrameInv NoPanic.
+From Pakhi.Proofs Require Import CallValue Assoc Scope Control WF WFOps FrameInv NoPanic Skeleton.
 Local Open Scope nat_scope.
 
 (* the value of a call: the callee's body ran from its opening brace with exactly the positional bindings in a fresh scope
@@ -83,3 +83,17 @@ Theorem C05_frame_invariant_preserved : forall code, code_ok code -> forall fuel
   mwf code m' /\ forall F, frame_static code F -> finv code F m -> finv code F m'.
 Proof. exact interp_keeps_invariants. Qed.
 Print Assumptions C05_frame_invariant_preserved.
+
+(* an expression -- calls of any depth included -- leaves every scope of the caller with exactly the names it had, in the
+   same order: nothing a callee declares (parameters, locals, nested functions) outlives the call, and nothing the caller
+   had declared is lost; only values can change (a callee may assign to a caller's variable) *)
+Theorem C05_calls_keep_the_names_of_every_scope : forall code, code_ok code -> forall fuel e m v m',
+  mwf code m -> expr_ok e = true -> eval code fuel e m = Ok (v, m') -> skel (m_scopes m') = skel (m_scopes m).
+Proof. exact expressions_keep_the_names_of_every_scope. Qed.
+Print Assumptions C05_calls_keep_the_names_of_every_scope.
+
+Theorem C05_visible_names_stay_visible : forall code, code_ok code -> forall fuel e m v m' x,
+  mwf code m -> expr_ok e = true -> eval code fuel e m = Ok (v, m') ->
+  holder x (m_scopes m') = holder x (m_scopes m) /\ (lookup_var x (m_scopes m') = None <-> lookup_var x (m_scopes m) = None).
+Proof. exact visible_names_stay_visible. Qed.
+Print Assumptions C05_visible_names_stay_visible.
